@@ -367,7 +367,8 @@ class PFlow(BaseRoutine):
         v0 = system.dae.xy
 
         try:
-            ret = newton_krylov(self._fg_wrapper, v0, verbose=verbose)
+            # converge to the configured tolerance (SciPy's default is 6e-6 regardless of `config.tol`)
+            ret = newton_krylov(self._fg_wrapper, v0, verbose=verbose, f_tol=self.config.tol)
             self._set_xy(ret)
             self.converged = True
 
